@@ -618,6 +618,40 @@ func (r *seqRun) execSimple(t []string) {
 			s += ",DUP"
 		}
 		r.emit("op %s => %s", name, s)
+	case "iteradv":
+		// iterate; after the first element has been received the clock jumps by d (no maintenance in between)
+		d, _ := strconv.ParseInt(t[2], 10, 64)
+		first := "-"
+		var rest []string
+		got := 0
+		yield := func(tok string) {
+			if got == 0 {
+				first = tok
+				r.clock.now += d
+			} else {
+				rest = append(rest, tok)
+			}
+			got++
+		}
+		switch t[1] {
+		case "all":
+			for k, v := range c.All() {
+				yield(fmt.Sprintf("%d=%d", k, v))
+			}
+		case "keys":
+			for k := range c.Keys() {
+				yield(fmt.Sprint(k))
+			}
+		default:
+			for v := range c.Values() {
+				yield(fmt.Sprint(v))
+			}
+		}
+		if got == 0 {
+			r.clock.now += d
+		}
+		sort.Strings(rest)
+		r.emit("op %s => first=%s rest=%s", name, first, strings.Join(rest, ","))
 	case "keys":
 		var ks []int
 		for k := range c.Keys() {
